@@ -177,7 +177,7 @@ func (prefixConcEngine) Run(ctx *fw.Ctx, cs any) {
 			wg.Add(1)
 			p := p
 			p.call = clock()
-			s.l.InjectAsync(p.data, 2, clientPeer6, func() {
+			s.l.InjectAsync(p.data, fakeIf, clientPeer6, func() {
 				p.ret = clock()
 				wg.Done()
 			})
